@@ -68,6 +68,43 @@ func (e *ent) Value() []byte  { return e.v }
 func (e *ent) SeqNum() uint64 { return e.seq }
 func (e *ent) IsDelete() bool { return e.del }
 
+// faultFS opens files whose ReadAt number [countdown] (counted from arm) fails once with a non-EOF error.
+type faultCtl struct {
+	countdown int // -1 = healthy
+	fired     bool
+}
+
+func (c *faultCtl) arm(k int) { c.countdown, c.fired = k, false }
+func (c *faultCtl) disarm()   { c.countdown = -1 }
+
+var errInjected = errors.New("injected transient storage read failure")
+
+type faultFS struct {
+	storage.FileSystem
+	ctl *faultCtl
+}
+
+func (f *faultFS) Open(path string) storage.File {
+	return &faultFile{File: f.FileSystem.Open(path), ctl: f.ctl}
+}
+
+type faultFile struct {
+	storage.File
+	ctl *faultCtl
+}
+
+func (f *faultFile) ReadAt(p []byte, off int64) (int, error) {
+	if f.ctl.countdown == 0 {
+		f.ctl.countdown = -1
+		f.ctl.fired = true
+		return 0, errInjected
+	}
+	if f.ctl.countdown > 0 {
+		f.ctl.countdown--
+	}
+	return f.File.ReadAt(p, off)
+}
+
 type neverOwns struct{}
 
 func (neverOwns) OwnsKey([]byte) bool                                       { return true }
@@ -648,8 +685,9 @@ func execTab(c *hx.Case, ops []op) (*hx.Result, error) {
 
 	// false-positive lookups from replicas of the tables' bloom filters
 	type tget struct {
-		t int
-		k []byte
+		t  int
+		k  []byte
+		fp bool
 	}
 	var tgets []tget
 	if fp {
@@ -665,7 +703,7 @@ func execTab(c *hx.Case, ops []op) (*hx.Result, error) {
 			try := func(class string, k []byte) {
 				if cnt[class] < 5 && !present[string(k)] && bf.MightHave(k) {
 					cnt[class]++
-					tgets = append(tgets, tget{ti, k})
+					tgets = append(tgets, tget{ti, k, true})
 					tags = append(tags, "bloom-fp-"+class)
 				}
 			}
@@ -681,7 +719,7 @@ func execTab(c *hx.Case, ops []op) (*hx.Result, error) {
 			// some present keys of a big table too (block boundaries)
 			for i, k := range tableKeys[ti] {
 				if i%16 == 0 && i%(16*37) == 0 || i%16 == 15 && i%(16*41) == 15 || i == len(tableKeys[ti])-1 {
-					tgets = append(tgets, tget{ti, k})
+					tgets = append(tgets, tget{ti, k, false})
 				}
 			}
 		}
@@ -708,7 +746,7 @@ func execTab(c *hx.Case, ops []op) (*hx.Result, error) {
 		}
 		sort.Ints(order)
 		for _, i := range order {
-			tgets = append(tgets, tget{i, k})
+			tgets = append(tgets, tget{i, k, false})
 		}
 	}
 	var lks []string
@@ -821,6 +859,95 @@ func execTab(c *hx.Case, ops []op) (*hx.Result, error) {
 			tags = appendOnce(tags, "level-get-"+fr.tag)
 		}
 	}
+	// Single transient read faults: the table is re-opened over a filesystem whose k-th ReadAt (after the footer has
+	// been loaded by a healthy lookup) fails once, for k = 0, 1, 2, ... until a run finishes without reaching read k.
+	var fgs, fss []string
+	{
+		ctl := &faultCtl{countdown: -1}
+		ffs := &faultFS{FileSystem: fs, ctl: ctl}
+		type fkey struct {
+			t int
+			k []byte
+		}
+		var fkeys []fkey
+		multi := 0
+		single := false
+		for ti := range tables {
+			ks := tableKeys[ti]
+			switch {
+			case len(ks) > 16 && multi < 2:
+				multi++
+				seen := map[int]bool{}
+				for _, i := range []int{len(ks) - 1, len(ks) / 2, 17, 16, 0} {
+					if i < len(ks) && !seen[i] {
+						seen[i] = true
+						fkeys = append(fkeys, fkey{ti, ks[i]})
+					}
+				}
+			case len(ks) >= 1 && len(ks) <= 16 && !single:
+				single = true
+				fkeys = append(fkeys, fkey{ti, ks[len(ks)-1]}, fkey{ti, ks[0]})
+			}
+		}
+		nfp := 0
+		for _, g := range tgets {
+			if g.fp && nfp < 3 {
+				nfp++
+				fkeys = append(fkeys, fkey{g.t, g.k})
+			}
+		}
+		for _, fk := range fkeys {
+			ft := sst.NewTableFromDocument(ffs, neverOwns{}, rdocs[fk.t])
+			safeGet(ft, fk.k) // healthy: loads the footer
+			nerr := 0
+			var outs []string
+			for k := 0; k < 2000; k++ {
+				ctl.arm(k)
+				r := safeGet(ft, fk.k)
+				fired := ctl.fired
+				ctl.disarm()
+				if r.tag == "err" {
+					nerr++
+				} else {
+					if len(outs) == 0 || outs[len(outs)-1] != r.term {
+						outs = append(outs, r.term)
+					}
+					if fired {
+						tags = appendOnce(tags, "fault-get-answered-after-fault-"+r.tag)
+					}
+				}
+				if !fired {
+					break
+				}
+			}
+			if len(tableKeys[fk.t]) > 16 {
+				tags = appendOnce(tags, "fault-get-multi-block")
+			}
+			fgs = append(fgs, fmt.Sprintf("(mkFG %d %s %d %s)", fk.t, hx.CoqBytes(fk.k), nerr, hx.CoqList(outs, "get_res")))
+		}
+		if deep {
+			for ti := range tables {
+				if n := len(tableKeys[ti]); n >= 1 && n <= 8 {
+					ft := sst.NewTableFromDocument(ffs, neverOwns{}, rdocs[ti])
+					safeScan(ft, nil) // healthy: loads the footer
+					var runs []string
+					for k := 0; k < 400; k++ {
+						ctl.arm(k)
+						ents, failed := safeScan(ft, nil)
+						fired := ctl.fired
+						ctl.disarm()
+						runs = append(runs, hx.CoqPair(hx.CoqBool(failed), coqEntries(ents)))
+						if !fired {
+							break
+						}
+					}
+					fss = append(fss, fmt.Sprintf("(mkFS %d %s %s)", ti, hx.CoqBytes(nil), hx.CoqList(runs, "bool * list entry")))
+					tags = appendOnce(tags, "fault-scan")
+					break
+				}
+			}
+		}
+	}
 	var bls []string
 	if len(blooms) > 0 {
 		bf := bloom.NewFilter(32*1024, 5)
@@ -838,8 +965,9 @@ func execTab(c *hx.Case, ops []op) (*hx.Result, error) {
 	for _, e := range es {
 		ets = append(ets, coqEntry(e.k, e.v, e.seq, e.del))
 	}
-	term := fmt.Sprintf("TabC %s %s %d %s %s %s %s %s", hx.CoqBool(deep), coqEntries(ets), target,
-		hx.CoqList(otabs, "otable"), hx.CoqList(lks, "olookup"), hx.CoqList(scs, "oscan"), hx.CoqList(bls, "obloom"), hx.CoqList(lgs, "olget"))
+	term := fmt.Sprintf("TabC %s %s %d %s %s %s %s %s %s %s", hx.CoqBool(deep), coqEntries(ets), target,
+		hx.CoqList(otabs, "otable"), hx.CoqList(lks, "olookup"), hx.CoqList(scs, "oscan"), hx.CoqList(bls, "obloom"), hx.CoqList(lgs, "olget"),
+		hx.CoqList(fgs, "ofget"), hx.CoqList(fss, "ofscan"))
 	if deep {
 		tags = append(tags, "deep")
 	}
